@@ -14,6 +14,7 @@ import (
 	xdb "com.tuntun.rangers/node/src/middleware/db"
 	"com.tuntun.rangers/node/src/middleware/mysql"
 	"com.tuntun.rangers/node/src/middleware/types"
+	"com.tuntun.rangers/node/src/network"
 	"com.tuntun.rangers/node/src/service"
 	"com.tuntun.rangers/node/src/storage/account"
 	"com.tuntun.rangers/node/src/utility"
@@ -44,6 +45,14 @@ func (h *Helper) VerifyHash(b *types.Block) common.Hash {
 }
 func (h *Helper) CheckProveRoot(bh *types.BlockHeader) (bool, error) { return true, nil }
 func (h *Helper) VerifyNewBlock(bh *types.BlockHeader, preBH *types.BlockHeader) (bool, error) {
+	// the structural part of the real Processor.VerifyBlock; only the group-signature / VRF
+	// verification that follows it there is stubbed
+	if bh.Hash != bh.GenHash() {
+		return false, fmt.Errorf("block hash error")
+	}
+	if preBH == nil || preBH.Hash != bh.PreHash {
+		return false, fmt.Errorf("preHash error")
+	}
 	if h.RejectHeaders != nil && h.RejectHeaders[bh.Hash] {
 		return false, fmt.Errorf("stub: rejected")
 	}
@@ -75,6 +84,7 @@ type Node struct {
 	Chain  core.BlockChain
 	Groups core.GroupChain
 	Pool   service.TransactionPool
+	Net    *SimNet
 }
 
 var (
@@ -130,6 +140,8 @@ func Boot(disk *simdisk.Disk, forks Forks, withHandlers bool) *Node {
 
 	SetForks(forks)
 	common.SetBlockHeight(0)
+	net := &SimNet{}
+	network.SimNetwork = net
 	xdb.SimOpenHook = disk.Open
 	xdb.SimReset()
 	account.SimResetProcessCaches()
@@ -148,7 +160,7 @@ func Boot(disk *simdisk.Disk, forks Forks, withHandlers bool) *Node {
 	if err := core.SimInit(h, withHandlers); err != nil {
 		panic(err)
 	}
-	n := &Node{Disk: disk, Helper: h, Chain: core.GetBlockChain(), Groups: core.GetGroupChain(), Pool: service.GetTransactionPool()}
+	n := &Node{Disk: disk, Helper: h, Chain: core.GetBlockChain(), Groups: core.GetGroupChain(), Pool: service.GetTransactionPool(), Net: net}
 	current = n
 	return n
 }
